@@ -19,6 +19,10 @@ PW = "s3cret pw"
 MARKERS = "!*"
 
 
+def nstr(x):
+    return x.decode("ascii") if isinstance(x, bytes) else x
+
+
 def is_disabled_form(s):
     return (not s) or s[0] in MARKERS
 
@@ -160,13 +164,23 @@ def histories(run, disabled, marker, part, parts):
             originals.append(("already-disabled-!", "!" + hs, PW))
             originals.append(("already-disabled-*", "*" + hs, PW))
             originals.append(("double-marker", "!!" + hs, PW))
+            if s == schemes[0] or s == schemes[-1]:
+                # the same given as bytes (hash columns read in binary mode)
+                originals.append(("bytes-original", hs.encode("ascii"), PW))
+                originals.append(("bytes-already-disabled", ("!" + hs).encode("ascii"), PW))
         if disabled == "django_disabled":
-            originals = [o for o in originals if o[0] in ("none",) or not is_disabled_form(o[1] or "") or o[0] == "bare-marker-!"]
+            # django_disabled claims every string starting with '!' (incl. unix-style locked hashes) and nothing else
+            originals = [o for o in originals if o[0] == "none" or not is_disabled_form(nstr(o[1]) or "") or nstr(o[1]).startswith("!")]
+            originals += [("foreign-!!", "!!", None), ("foreign-!*", "!*", None)]
         for okind, orig, opw in originals:
             w0 = dict(schemes=schemes, default=default, disabled_hasher=disabled, marker=marker, position=pos, original_kind=okind, original=orig)
+            if isinstance(orig, str) and (orig or disabled == "unix_disabled"):
+                # the starting string itself, before any operation
+                run.count("initial_strings_observed")
+                observe(run, ctx, orig, disabled, is_disabled_form(orig), dict(w0, history=[]), [opw] if opw else [])
             for seq in seqs:
                 cur = orig
-                mcur = orig
+                mcur = nstr(orig)
                 log = []
                 ok = True
                 for step, op in enumerate(seq):
@@ -188,6 +202,9 @@ def histories(run, disabled, marker, part, parts):
                         break
                     log.append(op)
                     run.count("history_steps")
+                    if isinstance(cur, bytes):
+                        run.count("bytes_steps")
+                    got = nstr(got)             # (a normal hash given as bytes comes back unchanged, as bytes)
                     if disabled == "unix_disabled":
                         want = model.disable(mcur) if op == "D" else model.enable(mcur)
                         if want is ValueError:
@@ -218,16 +235,17 @@ def histories(run, disabled, marker, part, parts):
                             cur = got
                             exp_dis = True
                         else:
-                            if is_disabled_form(cur):
+                            if is_disabled_form(nstr(cur)):
                                 if raised != "ValueError":
                                     run.violation(f"C18|{disabled}|enable-without-original-did-not-raise", f"enable({cur!r}) returned {got!r}", w)
                                     ok = False
                                     break
                                 continue
-                            if raised or got != cur:
+                            if raised or got != nstr(cur):
                                 run.violation(f"C18|{disabled}|enable-normal-hash-changed", f"enable({cur!r}) -> {got!r} ({raised})", w)
                                 ok = False
                                 break
+                            cur = nstr(cur)
                             exp_dis = False
                     if not observe(run, ctx, cur, disabled, exp_dis, w, [opw] if opw else []):
                         ok = False
